@@ -3499,3 +3499,67 @@ Q(name="e2_handle_packet_unprotected_slice", props=["C04"], func=r"connection/mo
   functions=["Connection::handle_packet (slice: from `let decrypted = match packet` to the error-state transitions)"], pre=lambda c: "true", post=hpu_post,
   bounds="the middle of handle_packet, executed from an ARBITRARY state: a packet for which decrypt_packet reported no packet number - a Retry or a Version Negotiation packet, which carry no packet protection and can be forged by anyone who has seen a connection ID - is counted as authenticated (idle timer, ECN counters) or handed to process_decrypted_packet only if this is a client whose handshake is still in progress; an established, closing or server-side connection is not touched by it",
   replay=("conn_unprotected_packet_native", lambda m: [dict(mode=k) for k in range(5)]))
+
+
+# ================================================================== the `quinn` crate (async layer): MIR dumped from its own workspace, candidates replayed by tests over loopback sockets
+_PROTO_ENUMS = {}
+
+
+def _proto_enum(name):
+    import e2 as _e2
+    import mir2smt
+    if _e2.REPO not in _PROTO_ENUMS:
+        _PROTO_ENUMS[_e2.REPO] = mir2smt.scan_enums(os.path.join(_e2.REPO, "quinn-proto", "src"))
+    return _PROTO_ENUMS[_e2.REPO][name]
+
+
+# ------------------------------------------------------------------ C17: a stream handle from a rejected 0-RTT attempt never reaches the protocol state machine (its ID may belong to a fresh stream)
+def q0g_post(c, p):
+    st = p.p.state
+    acted = [x for x in st.calls if re.search(r"quinn_proto::SendStream::\w+$", x[0])]
+    if not acted:
+        return "true"
+    early = c.inp("*_1.%d" % c.field("send_stream.rs", "SendStream", "is_0rtt", crate="quinn"), BOOL)
+    chk = [x for x in st.calls[:st.calls.index(acted[0])] if re.search(r"State::check_0rtt$", x[0])]
+    if not chk:
+        return not_(early)
+    ok = eq(c.ex.read_key(st, chk[-1][2] + "#discr", I64).t, bv(0))
+    return or_(not_(early), ok)
+
+
+for _fn, _what in (("finish", "finishes"), ("set_priority", "changes the priority of"), ("priority", "reads the priority of"), ("reset", "resets")):
+    Q(name="e2_quinn_sendstream_%s_0rtt_guard" % _fn, props=["C17"], crate="quinn", func=r"send_stream\.rs:\d+:1: \d+:16>::%s$" % _fn,
+      allowed_panics=r".", ignore_untranslatable=r".",
+      functions=["quinn::SendStream::%s" % _fn], pre=lambda c: "true", post=q0g_post,
+      bounds="every state of the handle and of the connection: quinn::SendStream::%s reaches the protocol state machine (quinn_proto::SendStream) only if the handle was not created during 0-RTT, or check_0rtt was asked first and did not report a rejection - after a rejection stream numbering restarts, so the handle's ID may belong to a fresh stream, which a stale handle must not be able to touch (it %s it otherwise)" % (_fn, _what),
+      replay=("quinn-test:stale_early_handle_does_not_touch_fresh_stream", lambda m: [dict()]))
+
+
+# ------------------------------------------------------------------ C11: every stream event wakes the parties that wait for it (one iteration of the event loop)
+def qfe_post(c, p):
+    st = p.p.state
+    if p.p.outcome != "stop" or "loop back-edge" not in str(p.p.detail):
+        return "true"
+    polls = [x for x in st.calls if re.search(r"quinn_proto::Connection::poll$", x[0])]
+    if len(polls) != 1:
+        return "false"
+    ev = polls[0][2] + "@Some.0"
+    EV, SE = _proto_enum("Event"), _proto_enum("StreamEvent")
+    is_stream = eq(c.ex.read_key(st, ev + "#discr", I64).t, bv(EV.index("Stream")))
+    sdis = c.ex.read_key(st, ev + "@Stream.0#discr", I64).t
+    F = lambda n: c.field("connection.rs", "State", n, crate="quinn")
+    def woken(fn_re, field):
+        return any(re.search(fn_re, x[0]) and x[1][1][0] == "ref" and str(_k(x[1][1][1])) == "*_1.%d" % F(field) for x in st.calls)
+    w_writers, w_readers, w_stopped = woken(r"^wake_stream$|::wake_stream$", "blocked_writers"), woken(r"^wake_stream$|::wake_stream$", "blocked_readers"), woken(r"wake_stream_notify$", "stopped")
+    need = {"Writable": w_writers, "Readable": w_readers, "Finished": w_stopped, "Stopped": w_writers and w_stopped}
+    out = []
+    for name, ok in need.items():
+        out.append(or_(not_(is_stream), not_(eq(sdis, bv(SE.index(name)))), "true" if ok else "false"))
+    return and_(*out)
+
+
+Q(name="e2_quinn_forward_app_events_wakeups", props=["C11"], crate="quinn", func=r"connection\.rs:\d+:1: \d+:11>::forward_app_events$",
+  allowed_panics=r".", check_stop=True, loop_is_stop=True, ignore_untranslatable=r".",
+  functions=["quinn::connection::State::forward_app_events (one iteration of its loop over the protocol events)"], pre=lambda c: "true", post=qfe_post,
+  bounds="one iteration of the loop from an arbitrary state, every event the protocol layer can report: Writable wakes the writer blocked on that stream, Readable the reader, Finished those waiting in stopped(), and Stopped BOTH those waiting in stopped() and a writer blocked on the stream - no credit will ever arrive for it, the STOP_SENDING is the only thing that can end its wait",
+  replay=("quinn-test:stopped_wakes_blocked_writer", lambda m: [dict()]))
